@@ -69,6 +69,15 @@ CHECKS = {
             "Wedge = mutating call still blocked after 8 s while nothing else runs. Timeout runs reporting more timeouts than injected are "
             "inconclusive (scheduler noise). Faults inside Exception handlers: containment/liveness/parity only, as the machine documents no nesting.",
             "fault injection at every enumerated handler position, property-based base cases (rapid)", "DESIGN.md §5 C08"),
+    "C04": ("exploration",
+            "Harness-owned schedules: verif-tagged schedule points in processQueue/queueMutation/emitEvents let a generated gate script hold the "
+            "queue owner at a named point (loop exit before the lock release, after release, after setActiveStates, before processSubscriptions) "
+            "while other generated callers append; plus free-running stress programs of 2..8 goroutines (Add/Remove/Set/Eval/CanAdd, handlers that "
+            "mutate) with random yields at every point. At logical quiescence: handler/eval bodies never overlapped, transition brackets never "
+            "nest, queue ticks ran in order, every queued mutation ran, every returned tick is reached and its WhenQueue channel (subscribed "
+            "while still queued) is closed; a non-empty queue nobody owns is reported as stranded.",
+            "Schedules are owned only at the hook points; other interleavings come from the Go scheduler plus random yields.",
+            "property-based testing (rapid) with harness-owned gate schedules + randomized stress", "DESIGN.md §5 C04"),
 }
 
 NOT_YET = "check not built yet in this session (planned, see DESIGN.md §9)"
